@@ -510,3 +510,37 @@ Proof.
 Qed.
 
 End MachineProofs.
+
+(* ---------------------------------------------------------------- memory: the streaming reader's buffer *)
+
+Section BufferBound.
+
+Variable E : bytes -> bytes.
+Variable bs : N.
+Variable sha1 : bytes -> bytes.
+Hypothesis bs_pos : 1 <= bs.
+Hypothesis E_len : forall x, lenN (E x) = bs.
+
+(* in Streaming mode the buffer never holds more than 8192 octets, however long the stream is *)
+Lemma fill_buffer_bound s : lenN (buf s) <= BUF -> lenN (buf (fill E bs sha1 None s)) <= BUF.
+Proof.
+  intros Hb. unfold fill. destruct (ph s); try exact Hb.
+  destruct (MDC_LEN <? lenN (buf s)); [exact Hb|].
+  destruct (bd_run E bs (dec s) (takeN (BUF - lenN (buf s)) (src s))) as [d' out] eqn:Er.
+  assert (Hol : lenN out <= BUF - lenN (buf s)).
+  { pose proof (bd_run_length E bs (dec s) (takeN (BUF - lenN (buf s)) (src s))) as Hx. rewrite Er in Hx. cbn [snd] in Hx.
+    rewrite Hx, lenN_takeN. lia. }
+  cbn [andb]. destruct (lenN (buf s ++ out) <? MDC_LEN); [cbn; unfold BUF; lia|].
+  destruct (lenN (takeN (BUF - lenN (buf s)) (src s)) <? BUF - lenN (buf s)).
+  - destruct (mdc_ok _ _ _); cbn [buf failed]; [rewrite lenN_takeN, lenN_app; lia|cbn; unfold BUF; lia].
+  - cbn [buf]. rewrite lenN_app. lia.
+Qed.
+
+Theorem take_buffer_bound n s :
+  lenN (buf s) <= BUF -> lenN (buf (fst (take E bs sha1 None n s))) <= BUF.
+Proof.
+  intros Hb. pose proof (fill_buffer_bound s Hb) as Hf. unfold take.
+  destruct (ph (fill E bs sha1 None s)); cbn [fst buf]; try exact Hf; rewrite lenN_dropN; lia.
+Qed.
+
+End BufferBound.
